@@ -345,7 +345,8 @@ func (_this *cteListener) ExitValueFloat(ctx *parser.ValueFloatContext) {
 		}
 	}
 	if sign < 0 {
-		decimal = decimal.Neg(decimal)
+		// Not Neg(): it would drop the sign of a negative zero
+		decimal.Negative = !decimal.Negative
 	}
 	_this.eventReceiver.OnBigDecimalFloat(decimal)
 }
